@@ -197,6 +197,11 @@ def run_case(case, rec, ctx):
             rec.check(got.get("srepr") == entry["srepr"], "roundtrip_differs",
                       f"{entry['label']}: object loaded in a fresh process (PYTHONHASHSEED={hashseed}) differs: {str(got.get('srepr'))[:200]} vs {entry['srepr'][:200]}",
                       {"before": entry["srepr"][:500], "after": str(got.get("srepr"))[:500], "error": got.get("error")}, feats)
+            if "hash_consistent" in got:
+                rec.hit("fresh_process.hash_consistency")
+                rec.check(bool(got["hash_consistent"]), "stale_hash_after_load",
+                          f"{entry['label']}: the object loaded in a fresh process equals an object constructed there but hashes differently / is not found in a set "
+                          f"(PYTHONHASHSEED={hashseed})", None, feats)
             if entry["value"] is not None and got.get("value") is not None:
                 rec.check(exprs.same(np.asarray(got["value_re"]) + 1j * np.asarray(got["value_im"]), entry["value"]), "roundtrip_value",
                           f"{entry['label']}: numeric value after a fresh-process load differs", None, feats)
@@ -284,6 +289,11 @@ def run_case(case, rec, ctx):
     diff = [k for k in before if before[k] != res["digests"].get(k)]
     rec.check(not diff, "model_roundtrip_differs", f"{label}: model loaded in a fresh process (PYTHONHASHSEED={hashseed}) differs in {diff}",
               {"attributes_differ": diff}, {**feats, "cross_process": True})
+    if res.get("hash_checked"):
+        rec.hit("fresh_process.hash_consistency")
+        rec.check(res.get("hash_inconsistent", 0) == 0, "stale_hash_after_load",
+                  f"{label}: {res.get('hash_inconsistent')} of {res.get('hash_checked')} expressions of the model loaded in a fresh process equal a freshly constructed "
+                  f"expression but hash differently (PYTHONHASHSEED={hashseed})", None, {**feats, "cross_process": True})
     if val is not None and res.get("value_re") is not None:
         got = np.asarray(res["value_re"]) + 1j * np.asarray(res["value_im"])
         rec.check(bool(np.allclose(got, val, rtol=1e-10, atol=1e-300, equal_nan=True)), "roundtrip_value",
